@@ -136,12 +136,17 @@ def removeChildP (g : G) (h : List IfH) (p c : Nat) : Except Err (G × List IfH)
     (runApi { x := c, ifs := ifsOfList Plan.removeChildInterfaceIfs c } Plan.removeChildInterface g).map (fun g' => (g', hDrop h c))
   else .error .assertion
 
+def removeInterfaceP (g : G) (h : List IfH) (i : Nat) : Except Err (G × List IfH) :=
+  match Plan.removeInterface with
+  | [⟨.gcp dp, false⟩] => (removeCpP g i dp).map (fun g' => (g', hDrop h i))
+  | _ => .error .assertion
+
 /-- the body of one deletion loop of `prune` -/
 def pruneBody (st : Step) : Option (G → Nat → Except Err G) :=
   match st with
   | .pruneNode => (match Plan.pruneNodeFn with | [⟨.callRemoveNode, false⟩] => some removeNodeApiP | _ => none)
   | .pruneComp => (match Plan.pruneComponentsFn with | [⟨.callRemoveComponent, false⟩] => some removeComponentApiP | _ => none)
-  | .pruneNs => some (fun g s => runApi { x := s, ifs := ifsOfList Plan.pruneNsFnIfs s } Plan.pruneNsFn g)
+  | .pruneNs => some (fun g s => if g.cls? s == some .ns then runApi { x := s, ifs := ifsOfList Plan.pruneNsFnIfs s } Plan.pruneNsFn g else .error .query)
   | .pruneIface => some (fun g i => runApi { x := i, ifs := ifsOfList Plan.pruneInterfaceFnIfs i } Plan.pruneInterfaceFn g)
   | _ => none
 
